@@ -2,19 +2,21 @@
 import os
 import sys
 from pyvc.driver import main, native_bounded, VERIF
-from contracts import policy_native
+from contracts import policy_native, c06_policy
 
 
 def custom_native(ip, runner):
     code = policy_native.C06 % {'native': os.path.join(VERIF, 'native')}
     return [native_bounded(runner, 'policy-evaluate', 'passed iff every specified field is satisfied per the documented rules (exact / subset with mandatory strict marker / larger keys / optional host keys / CA type before size); passed iff no errors; one error per violated field naming it; monotone under shrinking lists (subset) and growing keys (larger)',
                            code, 'all policy lists up to length 2 (plus two of length 3) x all peer lists up to length 3 over a 3-name universe x both subset settings for kex, ciphers+MACs and host keys with 4 optional lists; 5x5 boundary sizes x larger flag x 4 CA type pairs x 5 CA size pairs; banner/compression/no-kex; 3000 random monotonicity probes',
-                           'Policy.evaluate')]
+                           'Policy.evaluate (run-time, enumerated universe)')]
 
 
 def build(chk, ip, runner):
     chk.design_ref = 'DESIGN.md section 5 C06'
-    chk.units = []
+    chk.units = c06_policy.units()
+    chk.stubs = c06_policy.stubs()
+    chk.lemmas = ['all_in_at']
     chk.customs = [custom_native]
     chk.level = 'other'
     chk.explanation = 'bounded run-time contract check of the real Policy.evaluate against the documented rules, enumerating the small universe of the property\'s quantifier'
